@@ -123,7 +123,7 @@ class ProgressBar(Widget):
         cs = 0
         if self.satt is not None:
             cs = int((cf - ccol) * 8)
-        if ccol < 0 or (ccol == cs == 0):
+        if cf <= 0 or (ccol == cs == 0):
             c._attr = [[(self.normal, maxcol)]]
         elif ccol >= maxcol:
             c._attr = [[(self.complete, maxcol)]]
@@ -140,5 +140,5 @@ class ProgressBar(Widget):
             c._attr = [a]
             c._cs = [[(None, len(c._text[0]))]]
         else:
-            c._attr = [[(self.complete, ccol), (self.normal, maxcol - ccol)]]
+            c._attr = [[(attr, run) for attr, run in ((self.complete, ccol), (self.normal, maxcol - ccol)) if run]]
         return c
